@@ -50,6 +50,8 @@ pub struct RunOut {
     pub obs: Vec<Vec<u64>>,
     pub canary_torn: u64,
     pub max_busy: u64,
+    /// per scenario fault: was it delivered?
+    pub fired: Vec<bool>,
 }
 
 // ------------------------------------------------------------------------------------------------
@@ -290,6 +292,9 @@ pub fn run_calls(b: &mut Built, sc: &Scenario, spec: &StratSpec, seed: u64, repl
     let mut calls: Vec<CallOut> = Vec::new();
     let disp = b.disp.as_mut().expect("dispatcher");
     let world = &b.world;
+    #[cfg(feature = "par")]
+    let other_pool = sc.from_pool.map(|n| rayon::ThreadPoolBuilder::new().num_threads(n).build().expect("pool"));
+    let ctx2 = ctx.clone();
     let report = detsim::run(cfg, || {
         detsim::set_info(PH_CALLER);
         for (ci, call) in sc.calls.iter().enumerate() {
@@ -301,7 +306,7 @@ pub fn run_calls(b: &mut Built, sc: &Scenario, spec: &StratSpec, seed: u64, repl
             }
             let first_seq = ctx.events.lock().unwrap().len() as u64;
             ctx.emit(Ev::CallBegin, usize::MAX, ci as u64);
-            let r = catch_unwind(AssertUnwindSafe(|| match call {
+            let mut do_call = || match call {
                 Call::Dispatch => disp.dispatch(world),
                 #[cfg(feature = "par")]
                 Call::DispatchPar => disp.dispatch_par(world),
@@ -309,7 +314,26 @@ pub fn run_calls(b: &mut Built, sc: &Scenario, spec: &StratSpec, seed: u64, repl
                 Call::DispatchPar => disp.dispatch_seq(world),
                 Call::DispatchSeq => disp.dispatch_seq(world),
                 Call::DispatchTl => disp.dispatch_thread_local(world),
-            }));
+            };
+            #[cfg(feature = "par")]
+            let r = match &other_pool {
+                Some(op) => {
+                    // the caller of dispatch is a worker of another pool
+                    let w = AssertSend(&mut do_call);
+                    let ctx2 = ctx2.clone();
+                    catch_unwind(AssertUnwindSafe(|| {
+                        op.install(move || {
+                            let w = w;
+                            detsim::set_info(PH_CALLER);
+                            ctx2.emit(Ev::CallBegin, usize::MAX, ci as u64);
+                            (w.0)()
+                        })
+                    }))
+                }
+                None => catch_unwind(AssertUnwindSafe(&mut do_call)),
+            };
+            #[cfg(not(feature = "par"))]
+            let r = catch_unwind(AssertUnwindSafe(&mut do_call));
             let panic = r.err().map(|p| crate::util::payload_string(&p));
             ctx.emit(if panic.is_some() { Ev::CallPanic } else { Ev::CallEnd }, usize::MAX, ci as u64);
             let last_seq = ctx.events.lock().unwrap().len() as u64;
@@ -326,6 +350,10 @@ pub fn run_calls(b: &mut Built, sc: &Scenario, spec: &StratSpec, seed: u64, repl
         }
     });
     let events = std::mem::take(&mut *ctx.events.lock().unwrap());
+    let fired = {
+        let d = ctx.directives.lock().unwrap();
+        sc.faults.iter().map(|f| f.sid < d.len() && !d[f.sid].iter().any(|x| x.call == f.call && x.kind == f.kind)).collect()
+    };
     let final_world = snapshot_world(&ctx, &mut b.world);
     #[cfg(feature = "sim")]
     let max_busy = rayon::stats::MAX_BUSY.load(Ordering::SeqCst);
@@ -345,8 +373,12 @@ pub fn run_calls(b: &mut Built, sc: &Scenario, spec: &StratSpec, seed: u64, repl
         obs: ctx.states.iter().map(|s| s.obs.lock().unwrap().clone()).collect(),
         canary_torn: ctx.canary_torn.load(Ordering::SeqCst),
         max_busy,
+        fired,
     }
 }
+
+struct AssertSend<T>(T);
+unsafe impl<T> Send for AssertSend<T> {}
 
 /// Digest of the (system, event) order: "distinct interleavings" measure.
 pub fn interleaving_digest(ev: &[Event]) -> u64 {
